@@ -306,14 +306,10 @@ fn run_single_program(
                 libc::signal(libc::SIGQUIT, libc::SIG_DFL);
             }
 
-            // close pipes unrelated to current child (left side)
-            if idx_cmd > 0 {
-                for i in 0..idx_cmd - 1 {
-                    let fds = pipes[i];
-                    libs::close(fds.0);
-                    libs::close(fds.1);
-                }
-            }
+            // pipes on the left side were already closed by the parent
+            // before this fork. Their numbers may have been reused since
+            // (by the here-string pipe of this command), so they must not
+            // be closed again here.
             // close pipes unrelated to current child (right side)
             for i in idx_cmd + 1..pipes_count {
                 let fds = pipes[i];
@@ -346,10 +342,10 @@ fn run_single_program(
 
             // (in child) replace stdin/stdout with read/write ends of pipe
             if idx_cmd > 0 {
+                // (the write end of this pipe is closed in the parent already)
                 let fds_prev = pipes[idx_cmd - 1];
                 libs::dup2(fds_prev.0, 0);
                 libs::close(fds_prev.0);
-                libs::close(fds_prev.1);
             }
             if idx_cmd < pipes_count {
                 let fds = pipes[idx_cmd];
